@@ -208,13 +208,26 @@ func run(t *testing.T, kind string) {
 		if names[1] != "ab" {
 			rec.Class("exotic-alphabet")
 		}
+		// in a quarter of the cases on Sub views of an in-memory FS the view's ROOT may be removed / renamed / re-created
+		// (as a regular file, too): error paths then have to name "." and names below it, never the inner base directory
+		rootMut := (kind == "submem" || kind == "subsub") && rapid.IntRange(0, 3).Draw(rt, "rootmut") == 0
+		if rootMut {
+			rec.Class("root-mutations")
+		}
 		rt.Repeat(map[string]func(*rapid.T){
 			"step": func(rt *rapid.T) {
 				if m.diverged {
 					return // the case has ended; remaining drawn steps are ignored
 				}
-				tree := gen.TreeOf(ops.SnapOS(m.ref.Root))
-				op := gen.Op(rt, tree, names, 3, false)
+				snap := ops.SnapOS(m.ref.Root)
+				tree := gen.TreeOf(snap)
+				if len(tree.Dirs) == 0 {
+					tree.Dirs = []string{"."} // the root itself is gone or a file: names are still drawn below it
+				}
+				op := gen.Op(rt, tree, names, 3, rootMut)
+				if rootMut && rapid.IntRange(0, 5).Draw(rt, "atroot") == 0 {
+					op = ops.Op{K: rapid.SampledFrom([]string{"remove", "writefile", "mkdir", "removeall"}).Draw(rt, "rootop"), P: ".", Perm: 0o755, Data: []byte("r")}
+				}
 				if m.skipOp(op) {
 					rt.Skip("mount-boundary operation")
 				}
